@@ -947,6 +947,9 @@ func isLenOf(l ssa.Value, v ssa.Value) bool {
 }
 
 // exactLen: len(v) == n known at b.
+// ExactLenOracle, when set, answers "len(v) == n on entry of block b" with the interprocedural linear-fact engine (E3).
+var ExactLenOracle func(v ssa.Value, b *ssa.BasicBlock, n int64) bool
+
 func exactLen(v ssa.Value, b *ssa.BasicBlock) (int64, bool) {
 	for _, f := range guards.Facts(b) {
 		if f.Op != token.EQL {
@@ -1144,6 +1147,8 @@ func (s *maState) elementStore(li int, st *ssa.Store, valueTainted bool) {
 		if bi, isB := lc.Call.Value.(*ssa.Builtin); isB && bi.Name() == "len" {
 			if k, ok := exactLen(lc.Call.Args[0], loop.header); ok && k == N {
 				full = true
+			} else if ExactLenOracle != nil && ExactLenOracle(lc.Call.Args[0], loop.header, N) {
+				full = true // established by the linear-fact engine (e.g. through a validation helper's success path)
 			} else if p, isPtr := lc.Call.Args[0].Type().Underlying().(*types.Pointer); isPtr {
 				if at, isArr := p.Elem().Underlying().(*types.Array); isArr && at.Len() == N {
 					full = true
